@@ -183,6 +183,10 @@ def split_at(se, env, pc, r, n):
 
 
 def vec_index(se, env, pc, r, i):
+    if not isinstance(i, (int, dict)) and is_bv(i):
+        c = se.concretize(i)
+        if c is None: raise Inconclusive('symbolic index into a vector (%s)' % i)
+        i = c
     v0 = se.deref(env, r) if isinstance(r, Ref) else r
     if isinstance(v0, dict) and 'len' in v0 and isinstance(i, dict) and i.get('__ty') == 'Range': return abs_slice(se, env, pc, v0, i)
     r = base_ref(se, env, r); l = get_at(env[r.local], r.path)
